@@ -282,7 +282,23 @@ def sort_terms(terms):
 SENSE = {"<": 0, "=": 1, ">": 2}
 
 
+class RowNames:
+    """Row names the renaming does not know are kept (key [99, n]) and reported; they must never stop the capture of the
+    solver's values or the adversarial probes."""
+
+    def __init__(self, namer, res_names):
+        self.namer, self.res_names, self.unknown = namer, res_names, []
+
+    def __call__(self, name):
+        try:
+            return self.namer.row(name, self.res_names)
+        except Unsupported:
+            self.unknown.append(str(name))
+            return [99, len(self.unknown)]
+
+
 def dump_gurobi(model, namer, res_names, den):
+    rown = RowNames(namer, res_names)
     import gurobipy as gp
     from gurobipy import GRB
     model.update()
@@ -298,15 +314,15 @@ def dump_gurobi(model, namer, res_names, den):
                            for i in range(e.size())])
     for c in model.getConstrs():
         r = model.getRow(c)
-        rows.append([0, namer.row(c.ConstrName, res_names), lin(r), SENSE[c.Sense], as_int(c.RHS - r.getConstant(), "rhs")])
+        rows.append([0, rown(c.ConstrName), lin(r), SENSE[c.Sense], as_int(c.RHS - r.getConstant(), "rhs")])
     for g in model.getGenConstrs():
         if g.GenConstrType == GRB.GENCONSTR_INDICATOR:
             b, bv, e, s, rhs = model.getGenConstrIndicator(g)
-            rows.append([1, namer.row(g.GenConstrName, res_names), namer.var(b.VarName), int(bv), lin(e), SENSE[s],
+            rows.append([1, rown(g.GenConstrName), namer.var(b.VarName), int(bv), lin(e), SENSE[s],
                          as_int(rhs - e.getConstant(), "rhs")])
         elif g.GenConstrType == GRB.GENCONSTR_AND:
             r, ops = model.getGenConstrAnd(g)
-            rows.append([2, namer.row(g.GenConstrName, res_names), namer.var(r.VarName), [namer.var(o.VarName) for o in ops]])
+            rows.append([2, rown(g.GenConstrName), namer.var(r.VarName), [namer.var(o.VarName) for o in ops]])
         else:
             raise Unsupported("general constraint of type %s" % g.GenConstrType)
     if model.NumQConstrs or model.NumSOS or model.IsQP:
@@ -317,10 +333,11 @@ def dump_gurobi(model, namer, res_names, den):
     obj = sort_terms([[namer.var(o.getVar(i).VarName), scaled_int(o.getCoeff(i), den, "objective coefficient")]
                       for i in range(o.size())])
     obj = [t for t in obj if t[1] != 0]
-    return {"vars": vs, "rows": rows, "obj": obj, "den": den, "obj_const": o.getConstant()}
+    return {"vars": vs, "rows": rows, "obj": obj, "den": den, "obj_const": o.getConstant(), "unknown_rows": rown.unknown}
 
 
 def dump_cplex(model, namer, res_names, den):
+    rown = RowNames(namer, res_names)
     from docplex.mp.constants import ComparisonType
     vs = []
     for v in model.iter_variables():
@@ -333,7 +350,7 @@ def dump_cplex(model, namer, res_names, den):
     for ct in model.iter_constraints():
         if not hasattr(ct, "lhs") or not hasattr(ct.lhs, "iter_terms"):
             raise Unsupported("constraint of type %s" % type(ct).__name__)
-        name = namer.row(ct.name, res_names)
+        name = rown(ct.name)
         acc = {}
         for side, sign in ((ct.lhs, 1), (ct.rhs, -1)):
             for v, c in side.iter_terms():
@@ -357,7 +374,7 @@ def dump_cplex(model, namer, res_names, den):
         raise Unsupported("not a maximisation")
     o = model.objective_expr
     obj = sort_terms([[namer.var(v.name), as_int(c, "objective coefficient")] for v, c in o.iter_terms()])
-    return {"vars": vs, "rows": rows, "obj": obj, "den": den, "obj_const": o.get_constant()}
+    return {"vars": vs, "rows": rows, "obj": obj, "den": den, "obj_const": o.get_constant(), "unknown_rows": rown.unknown}
 
 
 
@@ -539,19 +556,23 @@ def run_case(d, probe=None):
             if "inst" in cap and "unsupported" not in cap:
                 try:
                     cap["dump"] = dump_gurobi(model, make_namer(), res_names, reward_den(cap["inst"]))
-                except Unsupported as e:
-                    cap["unsupported"] = str(e)
+                except Exception as e:      # the canonicalisation failed: reported, but values and probes are still captured
+                    cap["dump_error"] = "%s: %s" % (type(e).__name__, str(e)[:300])
             model.Params.Threads = 1
             model.Params.Seed = 1
             r = orig_opt(model, *a, **k)
-            if "dump" in cap:
+            if "inst" in cap and "unsupported" not in cap:
                 nm = make_namer()
                 cap["status"] = int(model.Status)
-                if model.SolCount > 0:
-                    cap["values"] = [[nm.var(v.VarName), as_int(v.X, "value")] for v in model.getVars()
-                                     if abs(v.X) > 1e-9]
-                    cap["objval"] = scaled_int(model.ObjVal - cap["dump"]["obj_const"], cap["dump"]["den"], "objective value")
-                    cap["objbound"] = float(model.ObjBound)
+                try:
+                    if model.SolCount > 0:
+                        cap["values"] = [[nm.var(v.VarName), as_int(v.X, "value")] for v in model.getVars()
+                                         if abs(v.X) > 1e-9]
+                        cap["objbound"] = float(model.ObjBound)
+                        cap["objval"] = scaled_int(model.ObjVal - model.getObjective().getConstant(),
+                                                   reward_den(cap["inst"]), "objective value")
+                except Exception as e:
+                    cap["values_error"] = "%s: %s" % (type(e).__name__, str(e)[:300])
                 if probe:
                     try:
                         cap["probes"] = run_probes(GurobiProbe(model, nm, orig_opt), cap["inst"], probe)
@@ -568,29 +589,32 @@ def run_case(d, probe=None):
             if "inst" in cap and "unsupported" not in cap:
                 try:
                     cap["dump"] = dump_cplex(model, make_namer(), res_names, reward_den(cap["inst"]))
-                except Unsupported as e:
-                    cap["unsupported"] = str(e)
+                except Exception as e:
+                    cap["dump_error"] = "%s: %s" % (type(e).__name__, str(e)[:300])
             model.context.cplex_parameters.threads = 1
             model.context.cplex_parameters.randomseed = 1
             sol = orig_solve(model, *a, **k)
-            if "dump" in cap and sol:
+            if "inst" in cap and "unsupported" not in cap and sol:
                 nm = make_namer()
-                den = cap["dump"]["den"]
-                vals = []
-                for v in model.iter_variables():
-                    x = sol.get_value(v)
-                    key = nm.var(v.name)
-                    if abs(x) > 1e-9:
-                        vals.append([key, scaled_int(x, den, "value") if key[0] == 7 else as_int(x, "value")])
-                cap["values"] = vals
-                cap["objval"] = scaled_int(sol.objective_value - cap["dump"]["obj_const"], den, "objective value")
+                den = reward_den(cap["inst"])
                 cap["status"] = 2
+                try:
+                    vals = []
+                    for v in model.iter_variables():
+                        x = sol.get_value(v)
+                        key = nm.var(v.name)
+                        if abs(x) > 1e-9:
+                            vals.append([key, scaled_int(x, den, "value") if key[0] == 7 else as_int(x, "value")])
+                    cap["values"] = vals
+                    cap["objval"] = scaled_int(sol.objective_value - model.objective_expr.get_constant(), den, "objective value")
+                except Exception as e:
+                    cap["values_error"] = "%s: %s" % (type(e).__name__, str(e)[:300])
                 if probe:
                     try:
                         cap["probes"] = run_probes(CplexProbe(model, nm, sol, orig_solve), cap["inst"], probe)
                     except Exception as e:
                         cap["probe_error"] = "%s: %s" % (type(e).__name__, str(e)[:300])
-            elif "dump" in cap:
+            elif "inst" in cap and "unsupported" not in cap:
                 cap["status"] = 3
             return sol
         cpx.Model.solve = solve
@@ -617,7 +641,8 @@ def run_case(d, probe=None):
         for r in restore:
             r()
     out["model_built"] = cap["calls"]
-    for k in ("inst", "dump", "values", "objval", "status", "unsupported", "objbound", "probes", "probe_error"):
+    for k in ("inst", "dump", "values", "objval", "status", "unsupported", "objbound", "probes", "probe_error", "dump_error",
+              "values_error"):
         if k in cap:
             out[k] = cap[k]
     if placements is not None:
